@@ -826,6 +826,14 @@ func (db *DB) readWALPageOffsets(f *os.File) (_ map[uint32]int64, lastCommit uin
 		return nil, 0, err
 	}
 
+	// Frames are copied in units of the database page size so the WAL must
+	// use the same one. A database that has no header yet takes it from the WAL.
+	if db.pageSize == 0 {
+		db.pageSize = r.PageSize()
+	} else if r.PageSize() != db.pageSize {
+		return nil, 0, fmt.Errorf("wal page size (%d) does not match database page size (%d)", r.PageSize(), db.pageSize)
+	}
+
 	// Read the offset of the last version of each page in the WAL.
 	offsets := make(map[uint32]int64)
 	txOffsets := make(map[uint32]int64)
